@@ -55,6 +55,8 @@ REG = {
                 text="Generated binaries (shared/PIE/exe/relocatable, bfd/lld, aliases, weak, IFUNC, TLS, common, versions, with/without -g); abidw's symbol tables must equal readelf's public defined function/data symbols attribute by attribute; exploration only.", note=_T1),
     "C19": dict(engine="progfuzz", technique="property-based testing (generated pairs of debug-info-less binaries; oracle: set difference of readelf symbol sets under the documented re-export rule)",
                 text="Generated stripped pairs with additions, removals, alias/binding/version changes; reported removed/added symbols must equal readelf's set difference, removal => INCOMPATIBLE, equal sets => exit 0; one recorded defect (alias additions) is a known finding; exploration only.", note=_T1),
+    "C23": dict(engine="progfuzz", technique="property-based testing (generated decoupled multi-change pairs x one targeted function/variable suppression; exact expected delta of entries and summary numbers)",
+                text="Generated C pairs whose changed/added/removed interfaces have private causes; one generated section names one of them (name, name_regexp, symbol_name, symbol_name_regexp, symbol_version) with random change_kind; exactly that entry must vanish and exactly one summary column must move by one, or nothing at all when change_kind does not cover it; exploration only.", note=_T1),
     "C38": dict(engine="apicheck", technique="exhaustive small-scope enumeration + rapidcheck against a reference LCS",
                 text="All pairs of sequences up to length 6 (quick) / 8 (thorough) over 3 letters are enumerated (exhaustive for that scope) and random long sequences with non-trivial predicates are sampled; oracle is an independent O(nm) LCS.", note=_T2),
     "C39": dict(engine="apicheck", technique="rapidcheck round-trip (config->text->config and text->config->text->config)",
